@@ -128,6 +128,13 @@ def run(ctx):
             A = polyline(rng, na, ((-4, 4), (-4, 4)))
             B = polyline(rng, nb, ((-4, 4), (-4, 4)))
         run_case(ctx, ser(dict(kind="pair", label=label, A=A, B=B)))
+    for i in range(budget(ctx, 12, 120)):
+        # single-span operands that clean() could simplify: they must come back untouched
+        A, ka = reducible_bezier(rng, 2)
+        B, kb = reducible_bezier(rng, 2) if rng.random() < 0.5 else (polyline(rng, rng.randint(1, 2), ((-4, 4), (-4, 4))), "polyline")
+        if rng.random() < 0.5:
+            A, B = B, A
+        run_case(ctx, ser(dict(kind="pair", label="reducible", A=A, B=B)))
     for i in range(budget(ctx, 8, 100)):
         def rc():
             p = rng.choice([2, 3])
